@@ -123,6 +123,9 @@ def check_extract_blocks(ctx, rep):
 def run(ctx) -> Report:
     rep = Report("C22")
     prog = ctx.prog
+    # the memo-key clause first: it needs no interpretation, and what it finds is reported even if a later clause cannot follow the code
+    from ..memokey import check_memo_keys, memo_rule  # noqa: F401
+    memo_rule(ctx, rep, "C22-key", ['ufl.algorithms.formsplitter'])
     cls = prog.get_class(CLS)
     ctx.crosscheck_dispatch({"FormSplitter"})
     pb = lambda n, *a: uflmodel.make_pullback(prog, n, *a)  # noqa: E731
@@ -371,7 +374,6 @@ def run(ctx) -> Report:
     rep.counts["block_patterns"] = n_pat
     from ..memokey import memo_rule
 
-    memo_rule(ctx, rep, "C22-key", ['ufl.algorithms.formsplitter'])
     return rep
 
 
